@@ -2,11 +2,11 @@
 import math, random
 import numpy as np
 from scipy import sparse
-import tvlib, harness_acd, harness_glm
+import tvlib, harness_acd, harness_glm, kernels
 import solverlib as sl
 
-GEN_SOURCES = ["skglm/solvers/anderson_cd.py"]
-EXTRA_TARGETS = ["Skel/MockACD.vo", "Skel/GlmFit.vo", "Lemmas/GlmStart.vo"]
+GEN_SOURCES = ["skglm/solvers/anderson_cd.py", "skglm/solvers/group_bcd.py", "skglm/datafits/group.py"]
+EXTRA_TARGETS = ["Skel/MockACD.vo", "Skel/GlmFit.vo", "Lemmas/GlmStart.vo", "Gen/KernBCD.vo", "Gen/DfGroup.vo", "Gen/PenBlock.vo", "Gen/KernCD.vo", "Gen/SparseOps.vo", "Gen/ProxFuncs.vo"]
 TRUSTED_BASE = [
     "Coq 8.16.1 kernel (coqc); vm_compute only in correspondence files",
     "axioms: Reals axioms + funext + classic (consistency theorem over R); the path / history theorems are axiom-free",
@@ -32,11 +32,12 @@ def correspondence(tier, rng):
     r2 = tvlib.run_cases(cases, ["Skel.AndersonCD", "Skel.MockACD"], "C05b", shard=12, jobs=16)
     gc, gdist = harness_glm.make_cases(rng, 12 if tier == "quick" else 120)
     r3 = tvlib.run_cases(gc, harness_glm.IMPORTS, "C05c", shard=20, jobs=16)
-    return dict(cases=len(pc) + len(cases) + len(gc), bad=(r1["bad"] + r2["bad"] + r3["bad"])[:10],
+    base = dict(cases=len(pc) + len(cases) + len(gc), bad=(r1["bad"] + r2["bad"] + r3["bad"])[:10],
                 errors=r1["errors"] + r2["errors"] + r3["errors"],
                 distribution=dict(path_histories=len(pc), solve_runs=dist, glm_fit_histories=gdist),
                 distinct_nontrivial=len({c[0] for c in pc}) + sum(1 for c in cases if "w_init=None" not in c[0]),
                 samples=[dict(history=pc[0][0][:600])])
+    return kernels.add_bcd_kernel_corr(base, rng, 70 if tier == "quick" else 420, "C05k", only=["_bcd_epoch", "QuadraticGroup"])
 
 
 def oracle(tier, rng, deep=False):
